@@ -260,7 +260,7 @@ func init() {
 	Register(Spec[nCase]{
 		ID: "C04", Suite: "hist", CoqImports: []string{"Model.OfferShape", "Check.C12", "Check.C04"},
 		CoqType: "list (bool * list op)", CoqRun: nCoqRun("Check.C04.run", "Check.C04.run_d"),
-		Quick: 300, Thorough: 8000, Parallel: 8, Timeout: 60 * time.Second,
+		Quick: 300, Thorough: 5000, Parallel: 8, Timeout: 60 * time.Second,
 		Corpus: corpus,
 		Gen:    c04Gen,
 		Run: func(c nCase) (V, Verdict) {
